@@ -815,9 +815,52 @@ def gen_pag2():
                  expect=dict(flows={"main": flow}, margin=True, page_w=205, page_h=H, conserve=True, geometry=True, fits_page=True, line_height=12, margin_top=10, margin_bottom=10, probe_literal=99))
 
 
+def gen_pag3():
+    # chapters with break-before: right; the first chapter fills exactly two pages in the first pass and needs a
+    # third one (hence a blank fourth) once the probe text got wider: page TYPES (blank, named, side) of the
+    # pages change between passes
+    for n, tail_wide in enumerate([True, False], start=20):
+        css = ("@page { size: 205px 110px; margin: 10px; @bottom-center { content: \"pg\" counter(page) \"of\" counter(pages); font-family: ahem; font-size: 8px; line-height: 8px } }\n"
+               "@page :blank { size: 100px 100px }\n@page wide { size: 245px 110px }\n" + BASE + "p { margin: 0; orphans: 1; widows: 1 }\n.ch { break-before: right }\n.wide { page: wide }\n" + PROBE_CSS2)
+        body, flow, forced, named = [], [], [], {}
+        wi = 1
+
+        def P(k, attrs="", probe_after=None):
+            nonlocal wi
+            ws = words("w", k, wi); wi += k
+            flow.extend(ws)
+            body.append(para(ws, attrs, probe_after))
+            return ws
+        # chapter 1: 13 one-line paragraphs + one "w w w <probe>" paragraph (1 line with np0, 2 lines with npNN)
+        for i in range(13):
+            P(3)
+        P(3, "", 2)
+        lens = [9, 16, 5, 20, 11]
+        for ci, L in enumerate(lens):
+            wide = tail_wide and ci >= 3
+            first = True
+            for j in range(L):
+                cls = []
+                if first:
+                    cls.append("ch")
+                if wide:
+                    cls.append("wide")
+                ws = P(3, ('class="%s"' % " ".join(cls)) if cls else "", 2 if (ci, j) in ((1, 7), (3, 2)) else None)
+                if first:
+                    forced.append(dict(word=ws[0], side="right"))
+                if wide:
+                    for w in ws:
+                        named[w] = "wide"
+                first = False
+        exp = dict(flows={"main": flow}, margin=True, page_w=205, page_h=110, conserve=True, geometry=True, line_height=12, margin_top=10, margin_bottom=10,
+                   probe_literal=99, forced=forced, page_sizes={"blank": [100, 100], "wide": [245, 110]}, named_of=named)
+        scenario("pag-%02d" % n, "pag", doc(css, "\n".join(body)), expect=exp)
+
+
 def main():
     gen_pag()
     gen_pag2()
+    gen_pag3()
     gen_feat3()
     gen_feat2()
     gen_brk()
